@@ -195,12 +195,12 @@ def _classification(c, i, op, ob, failed_total, broadcast):
             n = failed_total.get(idx, 0)
             if n == 0 and shape:
                 sig = "offered-dust-never-failed"
-                if broadcast and same_sets:
+                if broadcast and _not_due_at_broadcast(c, h):
                     sig = KNOWN_SIG + " dust-on-confirmed conf=%s" % op["kind"]
                 fails.append(("C12_classification_total", sig,
                               "op %d: offered htlc %s is dust on the confirmed %s commitment and "
                               "was never failed back" % (i, h, op["kind"])))
-            if n > 2 or (n > 1 and not broadcast and not _fixed_dups_ok()):
+            if n > 2:
                 fails.append(("C12_classification_total", "failback-duplicate",
                               "op %d: offered dust htlc %s failed back %d times" % (i, h, n)))
     # offered HTLCs that exist only on a non-confirmed commitment
@@ -219,7 +219,7 @@ def _classification(c, i, op, ob, failed_total, broadcast):
         n = failed_total.get(idx, 0)
         if n == 0:
             sig = "dangling-never-failed"
-            if broadcast and same_sets and out < 0:
+            if broadcast and out < 0 and _not_due_at_broadcast(c, h):
                 sig = KNOWN_SIG + " dust-dangling conf=%s" % op["kind"]
             fails.append(("C12_classification_total", sig,
                           "op %d: offered htlc %s exists only on a non-confirmed commitment and "
@@ -230,10 +230,24 @@ def _classification(c, i, op, ob, failed_total, broadcast):
     return fails
 
 
-def _fixed_dups_ok():
-    # with the candidate fix a dust HTLC may be cancelled back in StateDefault
-    # and again in StateContractClosed (duplicates are idempotent in the switch)
-    return True
+def _not_due_at_broadcast(c, h):
+    """The known-finding class (DESIGN 7-a): the HTLC was NOT one of those the
+    node cancels back when it decides to broadcast (dust on OUR commitment, or
+    absent from ours, dust on theirs and already at its cut-off), so its only
+    chance was the HtlcFailDustAction entry computed after confirmation, which
+    StateContractClosed does not consume."""
+    env = c["env"]
+    idx = h[0]
+    for l in c["active"]["l"]:
+        if not l[1] and l[0] == idx:
+            return l[2] >= 0          # has an output on ours
+    # absent from ours: cancelled at broadcast only if at its cut-off then
+    for op, ob in zip(c["ops"], c["obs"]):
+        if ob["fc"]:
+            cutoff = (h[3] - env["outd"]) % U32
+            due = op["h"] >= cutoff and (idx in env["fwd"] or env["uptime"] > env["grace"])
+            return not due
+    return False
 
 
 # ----------------------------------------------------------------------- run
